@@ -30,6 +30,7 @@ type OpResult struct {
 	AllData  bool
 	HasRes   bool // a result (not an error) was returned
 	SchedV   []sched.Violation
+	Delegate []DelegateEvent // per-file outcomes reported to the delegate
 }
 
 func (o *OpResult) errString() string {
@@ -187,6 +188,11 @@ func (r *Run) runOp(w *World, op string, plan []simdisk.Fault, spec SchedSpec, f
 	if st := r.Sched.Stats; st.Releases > 0 {
 		r.Logf("sched releases=%d preemptions=%d hash=%016x", st.Releases, st.Preemptions, st.ScheduleHash)
 	}
+	if len(plan) > 0 {
+		// with injected faults: the per-file outcomes reported to the
+		// delegate must not call a failed read or write a success
+		r.oracleDelegate(res)
+	}
 	return res
 }
 
@@ -216,6 +222,7 @@ func (r *Run) Create2(w *World, paths []string, plan []simdisk.Fault, spec Sched
 		if w.UseDefaults {
 			opts = par2.CreateOptions{}
 		}
+		opts.CreateDelegate = recEncoder2{recorder: recorder{w.Disk, &res.Delegate}}
 		res.Err = par2.VerifCreate(w.Disk, w.Index, paths, opts)
 		res.HasRes = res.Err == nil
 	})
@@ -225,7 +232,7 @@ func (r *Run) Create2(w *World, paths []string, plan []simdisk.Fault, spec Sched
 // Verify2 runs par2 Verify on the simulated disk.
 func (r *Run) Verify2(w *World, index string, g int, plan []simdisk.Fault, spec SchedSpec) *OpResult {
 	return r.runOp(w, "verify2", plan, spec, func(res *OpResult) {
-		vr, err := par2.VerifVerify(w.Disk, index, par2.VerifyOptions{NumGoroutines: g})
+		vr, err := par2.VerifVerify(w.Disk, index, par2.VerifyOptions{NumGoroutines: g, VerifyDelegate: recDecoder2{recorder: recorder{w.Disk, &res.Delegate}}})
 		res.Err = err
 		if err == nil {
 			res.HasRes = true
@@ -237,7 +244,7 @@ func (r *Run) Verify2(w *World, index string, g int, plan []simdisk.Fault, spec 
 // Repair2 runs par2 Repair on the simulated disk.
 func (r *Run) Repair2(w *World, index string, g int, doubleCheck bool, plan []simdisk.Fault, spec SchedSpec) *OpResult {
 	return r.runOp(w, fmt.Sprintf("repair2 G=%d dc=%v", g, doubleCheck), plan, spec, func(res *OpResult) {
-		rr, err := par2.VerifRepair(w.Disk, index, par2.RepairOptions{DoubleCheck: doubleCheck, NumGoroutines: g})
+		rr, err := par2.VerifRepair(w.Disk, index, par2.RepairOptions{DoubleCheck: doubleCheck, NumGoroutines: g, RepairDelegate: recDecoder2{recorder: recorder{w.Disk, &res.Delegate}}})
 		res.Err = err
 		res.Repaired = rr.RepairedPaths
 		res.HasRes = err == nil
@@ -251,6 +258,7 @@ func (r *Run) Create1(w *World, index string, paths []string, plan []simdisk.Fau
 		if w.UseDefaults {
 			opts = par1.CreateOptions{}
 		}
+		opts.CreateDelegate = recEncoder1{recorder: recorder{w.Disk, &res.Delegate}}
 		res.Err = par1.VerifCreate(w.Disk, index, paths, opts)
 		res.HasRes = res.Err == nil
 	})
@@ -259,7 +267,7 @@ func (r *Run) Create1(w *World, index string, paths []string, plan []simdisk.Fau
 // Verify1 runs par1 Verify.
 func (r *Run) Verify1(w *World, index string, all bool, plan []simdisk.Fault) *OpResult {
 	return r.runOp(w, fmt.Sprintf("verify1 all=%v", all), plan, SchedSpec{}, func(res *OpResult) {
-		vr, err := par1.VerifVerify(w.Disk, index, par1.VerifyOptions{VerifyAllData: all})
+		vr, err := par1.VerifVerify(w.Disk, index, par1.VerifyOptions{VerifyAllData: all, VerifyDelegate: recDecoder1{recorder: recorder{w.Disk, &res.Delegate}}})
 		res.Err = err
 		if err == nil {
 			res.HasRes = true
@@ -272,7 +280,7 @@ func (r *Run) Verify1(w *World, index string, all bool, plan []simdisk.Fault) *O
 // Repair1 runs par1 Repair.
 func (r *Run) Repair1(w *World, index string, doubleCheck bool, plan []simdisk.Fault) *OpResult {
 	return r.runOp(w, fmt.Sprintf("repair1 dc=%v", doubleCheck), plan, SchedSpec{}, func(res *OpResult) {
-		rr, err := par1.VerifRepair(w.Disk, index, par1.RepairOptions{DoubleCheck: doubleCheck})
+		rr, err := par1.VerifRepair(w.Disk, index, par1.RepairOptions{DoubleCheck: doubleCheck, RepairDelegate: recDecoder1{recorder: recorder{w.Disk, &res.Delegate}}})
 		res.Err = err
 		res.Repaired = rr.RepairedPaths
 		res.HasRes = err == nil
